@@ -1,6 +1,9 @@
 package gounions
 
 import (
+	"fmt"
+	"strings"
+
 	an "github.com/benoitkugler/gomacro/analysis"
 	gen "github.com/benoitkugler/gomacro/generator"
 )
@@ -232,7 +235,7 @@ func HC02_exec() {
 	if panicked {
 		vfStop()
 	}
-	errs := vfExec("example.com/mod/p", []string{"/m/p/p.go", "/m/p/gen.go", "/m/p/check.go"}, []string{c02Decls, text, c02Check}, nil, "Check")
+	errs := vfExec("example.com/mod/p", []string{"/m/p/p.go", "/m/p/gen.go", "/m/p/check.go"}, []string{c02Decls, text, strings.ReplaceAll(c02Check, ", 0, 2, \"alnum\")", fmt.Sprintf(", 0, %d, \"alnum\")", vfParam("C02.strlen", 2)))}, nil, "Check")
 	if len(errs) > 0 {
 		vfObserve("error", errs[0])
 	}
